@@ -63,6 +63,13 @@ class Worker:
             for j, (tid, outcome) in enumerate(self.tests):
                 if self.raise_at == j:
                     raise self.boom(self.name)
+                if self.native == "chatty":
+                    # one test with a detail of 300 chunks: more events than any sensible queue bound
+                    result.status(test_id=tid, test_status="inprogress")
+                    for k in range(300):
+                        result.status(test_id=tid, file_name="log", file_bytes=b"c", eof=(k == 299), mime_type="text/plain")
+                    result.status(test_id=tid, test_status="success")
+                    continue
                 if self.native:
                     # replays recorded event dicts: every field is given, the timestamp as None
                     final = {"addSuccess": "success", "addFailure": "fail", "addSkip": "skip"}[outcome]
@@ -109,6 +116,7 @@ CONFIGS = {
     "w2same": [([("a1", "addSuccess"), ("a2", "addFailure")], None), ([("b1", "addSkip")], None)],
     "w2none": [([("a1", "addSuccess")], None), ([("b1", "addError"), ("b2", "addSuccess")], None)],
     "w1empty": [([], None)],
+    "w2chatty": [([("a1", "addSuccess")], None, "chatty"), ([("b1", "addSkip")], None)],
     # run() ends with SystemExit (sys.exit() somewhere in the code under test) after its first test
     "w2exit": [([("a1", "addSuccess")], None), ([("b1", "addFailure"), ("b2", "addSuccess")], 1, "exit")],
     # sub-suites that are plain-TestSuite-like: unhashable, and equal to one another
@@ -128,7 +136,7 @@ def routes_of(config):
 
 
 def make_workers(config):
-    return [(SuiteLikeWorker if spec[2:] == ("suite",) else ExitingWorker if spec[2:] == ("exit",) else Worker)("w%d" % i, spec[0], spec[1], native=spec[2:] == ("native",)) for i, spec in enumerate(CONFIGS[config])]
+    return [(SuiteLikeWorker if spec[2:] == ("suite",) else ExitingWorker if spec[2:] == ("exit",) else Worker)("w%d" % i, spec[0], spec[1], native=("chatty" if spec[2:] == ("chatty",) else spec[2:] == ("native",))) for i, spec in enumerate(CONFIGS[config])]
 
 
 class Observer:
@@ -215,8 +223,8 @@ def execute(kind, config, chooser, faults, iter_fault=None, interrupt=False):
     shim = S.ThreadingShim(sched)
     queues = []
 
-    def queue_factory(*a, **kw):
-        q = S.SQueue(sched)
+    def queue_factory(maxsize=0):
+        q = S.SQueue(sched, maxsize)
         q.interruptible = interrupt
         queues.append(q)
         return q
@@ -624,6 +632,7 @@ def plan(tier):
                 out.append((kind, "w2none", (2, 0), None, False))
                 out.append((kind, "w2same", (1, 1), None, False))
                 out.append((kind, "w2native", (1, 1), None, False))
+                out.append((kind, "w2chatty", (1, 0), None, False))
             if kind == "csts":
                 # (the caller's result raising aborts ConcurrentStreamTestSuite.run)
                 out.append((kind, "w1+rerun", (1, 1), None, False))
